@@ -145,6 +145,17 @@ var legalEdges = map[[2]ring.InstanceState]bool{
 	{ring.ACTIVE, ring.LEAVING}: true, {ring.LEAVING, ring.ACTIVE}: true,
 }
 
+func externalEdit(sc scenario, w string) bool {
+	for _, a := range sc.actions {
+		if a.kind == "external-edit" && a.who == w {
+			return true
+		}
+	}
+	return false
+}
+
+var stateByName = map[string]ring.InstanceState{"PENDING": ring.PENDING, "JOINING": ring.JOINING, "ACTIVE": ring.ACTIVE, "LEAVING": ring.LEAVING}
+
 // claimsOf lists the instances whose tokens the scenario lets lifecycler w claim.
 func claimsOf(sc scenario, w string) map[string]bool {
 	m := map[string]bool{}
@@ -164,11 +175,13 @@ func monitor(sc scenario, st *Store, t0 time.Time) (key, what string) {
 	}
 	tokensChosen := map[string]bool{}
 	handedOver := map[string]bool{} // lifecyclers whose tokens come from a hand-over (inherited, not chosen)
+	wrote := map[string]int{}       // own writes so far per lifecycler process (a restart edge is legal on the first only)
 	for _, w := range st.Writes {
 		sp, isLC := specs[w.Writer]
 		if !isLC {
 			continue // external editor (harness)
 		}
+		wrote[w.Writer]++
 		in, out := descOf(w.In), descOf(w.Out)
 		at := w.At.Sub(t0)
 		// (a) other entries untouched
@@ -212,6 +225,10 @@ func monitor(sc scenario, st *Store, t0 time.Time) (key, what string) {
 		if aok && bok {
 			if a.State != b.State && !legalEdges[[2]ring.InstanceState{a.State, b.State}] {
 				return "illegal-edge", fmt.Sprintf("at +%v lifecycler %s published %s → %s", at, w.Writer, a.State, b.State)
+			}
+			if a.State == ring.LEAVING && b.State == ring.ACTIVE && wrote[w.Writer] > 1 && !externalEdit(sc, w.Writer) {
+				// "leaving to active" is a restart edge: legal only as the first write of a process that found its entry LEAVING
+				return "illegal-edge", fmt.Sprintf("at +%v lifecycler %s published LEAVING → ACTIVE in its write #%d (a restart edge: only the first write of a process may take it)", at, w.Writer, wrote[w.Writer])
 			}
 			if b.Timestamp < a.Timestamp {
 				return "heartbeat-backwards", fmt.Sprintf("at +%v lifecycler %s moved its heartbeat timestamp from %d back to %d", at, w.Writer, a.Timestamp, b.Timestamp)
@@ -398,6 +415,18 @@ func runC08(t *testing.T, sc scenario, ch *sched.Chooser) (res sched.Result) {
 						}
 					}
 					sched.Obs(fmt.Sprintf("ready %s -> %v", a.who, err == nil))
+				case "change-state":
+					// an external state change request (full lifecycler): granted only along the documented edges; a granted
+					// request is published before the call returns, a refused one publishes nothing
+					if in.full != nil {
+						before := descOf(st.Peek(ringKey)).Ingesters[a.who].State
+						err := in.full.ChangeState(context.Background(), stateByName[a.arg])
+						after := descOf(st.Peek(ringKey)).Ingesters[a.who].State
+						sched.Obs(fmt.Sprintf("change-state %s %s: %s -> %s err=%v", a.who, a.arg, before, after, err != nil))
+						if err == nil && after != stateByName[a.arg] && !stopAsked[a.who] {
+							sched.Obs(fmt.Sprintf("READY-VIOLATION %s: ChangeState(%s) returned nil at +%v but the ring entry is %s", a.who, a.arg, elapsed(), after))
+						}
+					}
 				case "claim":
 					if in.full != nil {
 						sched.Obs("claim " + a.who + " <- " + a.arg)
@@ -448,7 +477,7 @@ func runC08(t *testing.T, sc scenario, ch *sched.Chooser) (res sched.Result) {
 				if !ok || ent.State != ring.ACTIVE || len(ent.Tokens) != numTokens {
 					external := false
 					for _, a := range sc.actions {
-						if a.who == id && a.kind == "external-edit" {
+						if a.who == id && (a.kind == "external-edit" || a.kind == "change-state") {
 							external = true
 						}
 					}
@@ -515,6 +544,9 @@ func scenariosC08() []scenario {
 		{name: "autoforget-vs-joining", lcs: []lcSpec{{id: "a", basic: true, autoForget: 8 * time.Second, heartbeat: 2 * time.Second}, {id: "b", joinAfter: 1500 * time.Millisecond, observe: 3 * time.Second, heartbeat: 5250 * time.Millisecond}}, horizon: 9 * time.Second}, // b's heartbeat off the half-second grid: its observe timer (join commit + 3 s) can never fall due together with a tick
 		// several own-entry updates within one second, then a heartbeat: the published heartbeat time never goes back
 		{name: "basic-readonly-burst", lcs: []lcSpec{{id: "a", basic: true, heartbeat: 3 * time.Second}}, actions: []action{{at: 500 * time.Millisecond, kind: "readonly-on", who: "a"}, {at: 500 * time.Millisecond, kind: "readonly-off", who: "a"}, {at: 500 * time.Millisecond, kind: "readonly-on", who: "a"}, {at: 500 * time.Millisecond, kind: "readonly-off", who: "a"}}, horizon: 8 * time.Second},
+		// external state-change requests (Lifecycler.ChangeState) in every state: granted along the documented edges only
+		{name: "full-change-state-pending", lcs: []lcSpec{{id: "a", joinAfter: 4250 * time.Millisecond, heartbeat: 3 * time.Second}}, actions: []action{{at: 500 * time.Millisecond, kind: "change-state", who: "a", arg: "LEAVING"}, {at: 1 * time.Second, kind: "change-state", who: "a", arg: "JOINING"}, {at: 1500 * time.Millisecond, kind: "change-state", who: "a", arg: "LEAVING"}, {at: 2 * time.Second, kind: "change-state", who: "a", arg: "PENDING"}}, horizon: 9 * time.Second},
+		{name: "full-change-state-active", lcs: []lcSpec{{id: "a", heartbeat: 3 * time.Second}}, actions: []action{{at: 1 * time.Second, kind: "change-state", who: "a", arg: "PENDING"}, {at: 1500 * time.Millisecond, kind: "change-state", who: "a", arg: "JOINING"}, {at: 2 * time.Second, kind: "change-state", who: "a", arg: "LEAVING"}, {at: 2500 * time.Millisecond, kind: "change-state", who: "a", arg: "ACTIVE"}, {at: 4 * time.Second, kind: "change-state", who: "a", arg: "PENDING"}}, horizon: 8 * time.Second},
 		{name: "mixed", lcs: []lcSpec{{id: "a", joinAfter: 1500 * time.Millisecond}, {id: "b", basic: true}}, horizon: 14 * time.Second},
 		{name: "three-joiners", lcs: []lcSpec{{id: "a", joinAfter: 1500 * time.Millisecond}, {id: "b", joinAfter: 1500 * time.Millisecond}, {id: "c", basic: true}}, horizon: 9 * time.Second},
 		{name: "no-heartbeat", lcs: []lcSpec{{id: "a", joinAfter: 1500 * time.Millisecond}, {id: "b", basic: true, noHeartbeat: true}}, actions: []action{{at: 6 * time.Second, kind: "stop", who: "b"}}, horizon: 12 * time.Second},
@@ -533,6 +565,15 @@ func TestC08(t *testing.T) {
 		fmt.Sscan(b, &bound)
 	}
 	scs := scenariosC08()
+	if f := os.Getenv("VERIF_SCENARIO"); f != "" { // development aid: only the scenarios whose name contains f
+		var keep []scenario
+		for _, s := range scs {
+			if strings.Contains(s.name, f) {
+				keep = append(keep, s)
+			}
+		}
+		scs = keep
+	}
 	var names []string
 	for _, s := range scs {
 		names = append(names, s.name)
